@@ -62,7 +62,7 @@ var c17Lang = map[string]string{
 }
 
 var c17Colors = []string{"", "black", "dark_blue", "dark_green", "dark_aqua", "dark_red", "dark_purple", "gold", "gray", "dark_gray",
-	"blue", "green", "aqua", "red", "light_purple", "yellow", "white", "#ff00aa", "#FFFFFF", "RED", "unknown", "reset"}
+	"blue", "green", "aqua", "red", "light_purple", "yellow", "white", "#ff00aa", "#FFFFFF", "#", "#f", "#fff", "#12345", "#1234567", "#gggggg", "RED", "unknown", "reset"}
 
 var c17Strs = []string{"", "a", "hello", "Tnze", " ", "\"", "\\", "a\"b\\c/d", "<>&", "\u2028\u2029", "\x00", "\n\t", "\x7f",
 	"§", "§a", "§aX", "§AX", "§kX", "§KX", "§rX", "§RX", "§zX", "§§aX", "X§", "§lB§oI§nU§mS§r", "§\u212a", "\xc2", "\xa7a", "\xc2\xa7",
